@@ -363,6 +363,10 @@ func checkPipe(e *env, prop string) {
 		if e.rng.Intn(2) == 0 {
 			c.finalUS = 200 + e.rng.Intn(3000)
 		}
+		if prop == "C11" && it == 0 {
+			// once per run: targets that need 11.5 seconds for their last page (a large page, a slow disk) — waiting for them has no deadline
+			c.finalUS = 11500000
+		}
 		op := c.op("pipe")
 		out := c.run()
 		tag := fmt.Sprintf(" | procs=%d speeds=%v src=%dus snap=%dus final=%dus", c.procs, c.speeds, c.srcUS, c.snapUS, c.finalUS)
